@@ -1,24 +1,60 @@
 from ._common import STD_TRUST
 from .C06 import REGEN as _C06_REGEN
+from .C12 import REGEN as _C12_REGEN
+
+
+def _regen_validatorfac(ctx):
+    """Generated/ValidatorFactory.lean: every field of factory.StandardFactory() of the compiled repository
+    (name known, base type, scale, offset) — the table the model resolves native-field overrides through."""
+    import framework as F
+    return F.harness_regen(ctx, 'validatorfac', 'ValidatorFactory.lean')
+
 
 REGEN = dict(_C06_REGEN)
+REGEN.update(_C12_REGEN)
+REGEN['validatorfac'] = _regen_validatorfac
+
+
+def _extra(ctx, spec):
+    d = ctx.cov.get('families', {}).get('validate', {}).get('distribution', {})
+    ctx.cov['extra'] = {
+        'what': 'arithmetic inside the model (lines that carry no result of the real code: dv:=, fac:s/=)',
+        'lines': d.get('arith-inside', 0),
+        'of which: physical values that are exact images of raw values (every scaled field of the standard factory)': d.get('arith-exact-image', 0),
+        'values next to a rounding boundary k+1/2': d.get('arith-near-half', 0),
+        'values outside the range of the base type / wild floats': d.get('arith-out-of-range', 0),
+        'hand-made fields: every base type x pairs inside and outside the range of C12': d.get('arith-handmade', 0),
+        'developer fields, native override resolved through the regenerated factory': d.get('arith-native', 0),
+        "developer fields, the description's own scale / offset": d.get('arith-description', 0),
+        'custom factory': d.get('arith-custom-factory', 0),
+        'lines with a platform-defined float -> integer conversion (model reproduces amd64; excluded by the guards of the theorems)': d.get('arith-inside-platform-defined', 0),
+        'lines kept OUTSIDE (a NaN restored into a float32/float64 base type: payloads are not modelled)': d.get('arith-outside-nan-payload', 0),
+    }
 
 PROP = dict(
     level='proof',
-    regen=['consts'],
-    theorems=['Fit.C10.C10_validate_iff_spec', 'Fit.C10.C10_validate_filter', 'Fit.C10.C10_post', 'Fit.C10.C10_post_v1', 'Fit.C10.C10_def_sizes_are_bytes', 'Fit.C10.C10_reject', 'Fit.C10.C10_reject_batch', 'Fit.C10.C10_gate_no_panic', 'Fit.C10.C10_accept_batch', 'Fit.C10.C10_idempotent_partial', 'Fit.C10.C10_idempotent_full_fails_rescale'],
+    regen=['consts', 'profilearith', 'validatorfac'],
+    extra=_extra,
+    theorems=['Fit.C10.C10_validate_iff_spec', 'Fit.C10.C10_validate_filter', 'Fit.C10.C10_post', 'Fit.C10.C10_post_v1', 'Fit.C10.C10_def_sizes_are_bytes', 'Fit.C10.C10_reject', 'Fit.C10.C10_reject_batch', 'Fit.C10.C10_gate_no_panic', 'Fit.C10.C10_accept_batch', 'Fit.C10.C10_idempotent_partial', 'Fit.C10.C10_idempotent_full_fails_rescale',
+              'Fit.C10.C10_reject_too_many_fields', 'Fit.C10.C10_reject_bad_value', 'Fit.C10.C10_reject_unbacked_dev', 'Fit.C10.C10_reject_too_many_dev_fields',
+              'Fit.C10.C10_reject_bad_dev_value', 'Fit.C10.C10_reject_nothing_left', 'Fit.C10.C10_reject_v1', 'Fit.C10.C10_idempotent_not_f64',
+              'Fit.C10.C10_idempotent_no_float64_base', 'Fit.C10.C10_batch_no_panic', 'Fit.C10.C10_accept_batch_all', 'Fit.C10.C10_select_version',
+              'Fit.C10.C10_std_factory_in_range', 'Fit.C10.C10_validate_filter_arith', 'Fit.C10.C10_restore_exact', 'Fit.C10.C10_physical_eq_raw',
+              'Fit.C10.C10_restore_exact_native', 'Fit.C10.C10_restore_exact_desc', 'Fit.C10.C10_rescale_witness_arith'],
     families=[dict(name='validate', prop=True), dict(name='proto-validate', prop=True)],
     trusted_base=STD_TRUST + [
-        "scaleoffset.DiscardValue on float64-typed values (binary64 arithmetic + conversion, C12) is a parameter of the model; the driver instantiates it with the results of the real function carried in each operation line (dv: table)",
-        "what Factory.CreateField returns for native-field overrides is carried in the operation line (fac: table) and checked against the standard factory by the harness",
+        "scaleoffset.DiscardValue on float64-typed values (binary64 arithmetic + conversion) is a parameter D of the validator model; the theorems of FitProps/C10.lean hold for every D (those with the arithmetic inside are in FitProps/C10Arith.lean). Every operation line that involves that arithmetic or a factory look-up runs TWICE: once with the results of the real function carried in the line (dv: / fac: tables, as before) and once with the arithmetic INSIDE the model (dv:= -> Fit.ValidatorA.D = Fit.ScaleOffset.discardValue over the binary64 model Fit.F64, the definitions of C12's theorems; fac:s/= -> Fit.ValidatorA.stdFactory, read from Generated/ValidatorFactory.lean): such a line carries the messages and the options only",
+        "Generated/ValidatorFactory.lean (every field of factory.StandardFactory(): name known, base type, scale, offset) is printed on every run by `fitharness regen validatorfac` from the compiled packages; Generated/ProfileArith.lean by C12's translator. A custom factory (encoder.ValidatorWithFactory) is an option of the validator: its table is an input of the line in both modes",
+        "F64 models NaN as one canonical quiet NaN: a line that restores a NaN into a float32/float64 base type (payload decides Valid()) stays in carried mode only (counted: arith-outside-nan-payload); float -> integer conversion of NaN / ±Inf / out-of-range values is platform-defined in Go: the model reproduces amd64 on such lines (counted: arith-inside-platform-defined) and the theorems about exact results prove their domain free of them",
         "the in-place swap compaction of Validate is modelled by its effect (the kept fields in order) and tied by correspondence (0..300 fields x keep patterns)",
         "error kinds of package encoder are unexported sentinels: the harness classifies them by the sentinel text",
     ],
-    assumptions=["values are well-formed proto.Values (Value.wf)"],
+    assumptions=["values are well-formed proto.Values (Value.wf)",
+                 "C10_restore_exact / C10_physical_eq_raw / C10_restore_exact_native / C10_restore_exact_desc (explicit hypotheses, all decidable): integer base type of at most 32 bits (binary64 cannot carry every int64), (scale, offset) in C12's range InRangePair (unit pair, or positive normal scale in [1/2, 2^17) with |offset| < 2^10 — proved for every field of the regenerated standard factory and for every uint8 scale 1..254 / int8 offset of a field description), raw value fits its type; scales / offsets are float64 bit patterns (< 2^64)"],
 )
 
 TEXT = dict(
     technique='Lean 4 proof: model of encoder.messageValidator.Validate, proto.Validator and the order in which the encoder calls them; the loops are proved equal to a declarative specification (filter keep / map restore + writability conditions); differential tie on generated message sequences incl. the real Encoder / StreamEncoder gates',
-    text='C10: accepted messages satisfy the protocol limits, unwritable ones are rejected, validation = filter/map, idempotence (partial), definition sizes are bytes; no panic for any message (nil FieldBase under protocol 1.0, F11, was reported by this check and is repaired in /repo: fixed entry KF-C10-1); an accepted message is never empty (a message of which no field and no developer field survives was accepted as the empty message; reported by this check and repaired in /repo: fixed entry KF-C10-3).',
-    note='Trusted: Lean kernel; consts translator; line protocol; DiscardValue arithmetic and factory look-ups are inputs of the model (carried in the line, produced by the real code).',
+    text='C10: accepted messages satisfy the protocol limits, unwritable ones are rejected — limit by limit (C10_reject_too_many_fields: more than 255 kept fields; C10_reject_bad_value: a kept value misaligned with its base type / not valid UTF-8 / longer than 255 bytes; C10_reject_unbacked_dev: developer data index not announced or (index, number) not described; C10_reject_too_many_dev_fields; C10_reject_bad_dev_value; C10_reject_nothing_left; C10_reject_v1: developer fields or a base type after byte under protocol 1.0) and completely (C10_accept_batch / C10_accept_batch_all: everything writable passes, stream and batch gate; C10_batch_no_panic; C10_select_version: which version the gate validates under) —, validation = filter/map (besides expanded and invalid-valued fields it removes fields WITHOUT a FieldBase: such a field cannot be written at all — no number, no base type — and the message validator skips it silently; under protocol 1.0 it used to panic, KF-C10-1), idempotence (partial; syntactic forms C10_idempotent_not_f64: no float64-typed value in the accepted message, C10_idempotent_no_float64_base: no float64 base type in the message and the known descriptions), definition sizes are bytes. The theorems end at the gate\'s return value: that nothing of a rejected message is written rests on the order of calls in encoder.go / stream.go (gate before encodeMessage; a StreamEncoder has written the file header by then), tied by the ops encgate / streamgate which observe the bytes. The property is about the library\'s own validators: an encoder built with a custom encoder.WithMessageValidator is outside it; no panic for any message (nil FieldBase under protocol 1.0, F11, was reported by this check and is repaired in /repo: fixed entry KF-C10-1); an accepted message is never empty (a message of which no field and no developer field survives was accepted as the empty message; reported by this check and repaired in /repo: fixed entry KF-C10-3). WITH THE ARITHMETIC INSIDE (Fit.ValidatorA: D = the model of scaleoffset.DiscardValue over binary64, factory = the regenerated standard factory; composed from C12): C10_std_factory_in_range — every field the standard factory knows carries the unit pair or a pair meeting C12\'s side condition on an integer base type of at most 32 bits; C10_validate_filter_arith — C10_validate_filter with "restored" a definite function of the field (ScaleOffset.validatorRestore, the function C12_validator is about); C10_restore_exact — in any accepted message a field holding what ApplyValue makes of a raw value p (its float64 physical value) comes out holding exactly p under its base type, for every pair in range, and no conversion on the way is platform-defined; C10_physical_eq_raw — Validate on a message in physical units returns exactly what it returns on the same message in raw units (verdict, message, state); C10_restore_exact_native — developer field with a native-field override: scale and offset looked up in the regenerated factory, no hypothesis on the pair; C10_restore_exact_desc — the description\'s own uint8 scale 1..254 and int8 offset, all in range; C10_rescale_witness_arith — KF-C10-2 for the real arithmetic ((1.5+0)*2 = 3, (3+0)*2 = 6 evaluated in the binary64 model).',
+    note='Trusted: Lean kernel; the consts / profilearith / validatorfac translators; line protocol; the binary64 model Fit.F64 (tied by C12\'s family f64 and, through the validator, by the inside-mode lines of family validate). DiscardValue arithmetic and standard-factory look-ups are computed by the model on the inside-mode lines (the carried-mode lines remain as a second, independent tie); NaN payloads are outside the F64 model.',
 )
